@@ -260,6 +260,7 @@ def build(mode, term, agg=None):
 
 
 MODES = ('api', 'direct', 'direct2')
+TWO_MODES = ('api', 'direct2')
 
 
 # ---------------------------------------------------------------------------------------------------------------
@@ -512,7 +513,7 @@ def run_case(term, agg=None, modes=MODES):
 
 
 def _case_worker(job):
-    size, optname, agg, shard, nshards = job
+    size, optname, agg, shard, nshards, modes = job
     opts = {'full': FULL, 'nolit': NO_LIT_SHARING, 'freelit': FREE_LITS, 'agg': dict(AGG_OPTS, agg=agg)}[optname]
     roots = ('i',) if agg else E.VALUE_TYPES
     n = shared = with_lets = with_agglets = with_scanlets = nontrivial = 0
@@ -524,7 +525,7 @@ def _case_worker(job):
         n += 1
         sh = E.has_sharing(term)
         shared += sh
-        vs, info = run_case(term, agg)
+        vs, info = run_case(term, agg, modes)
         with_lets += info['lets'] > 0
         with_agglets += info['agglets'] > 0
         with_scanlets += info['scanlets'] > 0
@@ -572,7 +573,9 @@ def check(tier, seed, procs):
     _selfcheck()
     jobs = []
     for size, g, agg, ns in plan(tier):
-        jobs += [(size, g, agg, k, ns) for k in range(ns)]
+        # the biggest slices (thorough tier only) skip the 'direct' build, which differs from 'api' only where the API simplifies
+        modes = TWO_MODES if (g, size) in (('full', 6), ('nolit', 7), ('freelit', 5)) or (g == 'agg' and size == 6) else MODES
+        jobs += [(size, g, agg, k, ns, modes) for k in range(ns)]
     order = sorted(par.rotate(jobs, seed), key=lambda j: -j[0])   # big shards first for balance; set is unchanged
     rows = par.pmap(_case_worker, order, procs, chunksize=1)
     rows.sort(key=lambda r: (r['job'][0], r['job'][1], str(r['job'][2]), r['job'][3]))
@@ -593,7 +596,7 @@ def check(tier, seed, procs):
     samples = [r['sample'] for r in rows if r['sample']]
     samples = [s for s in samples if s.get('agg_let')][:2] + [s for s in samples if not s.get('agg_let')][:3]
     cov = {
-        'evaluations': n * len(MODES) * len(VALUATIONS),
+        'evaluations': sum(r['n'] * len(r['job'][5]) for r in rows) * len(VALUATIONS),
         'distinct_nontrivial': sum(r['nontrivial'] for r in rows),
         'rule': 'a case is one expression DAG (distinct by construction: each DAG has exactly one spelling in the '
                 'enumeration); it is counted as non-trivial when the real renderer lifted at least one shared sub-DAG '
@@ -605,7 +608,7 @@ def check(tier, seed, procs):
                    'aggregation / scan sub-grammar <= 5 nodes' if tier == 'quick' else
                    'every DAG with <= 6 nodes (full grammar), every DAG with 7 nodes where literal leaves are not shared, '
                    'every DAG with <= 5 non-literal nodes and any number of unshared literal leaves; '
-                   'aggregation / scan sub-grammar <= 6 nodes') + f'; {len(MODES)} builds x {len(VALUATIONS)} literal valuations each',
+                   'aggregation / scan sub-grammar <= 6 nodes') + f'; {len(MODES)} builds (2 on the largest thorough-only slices) x {len(VALUATIONS)} literal valuations each',
         'programs': n,
         'programs_per_slice': per,
         'programs_with_sharing': sum(r['shared'] for r in rows),
